@@ -168,6 +168,7 @@ pub fn absorb(out: &mut Outcome, prop: &str, sc_cfg: &Config, ops: &[Op], t: &Tr
                 first = true;
                 last_chunk = cfg.chunk;
             }
+            (_, Op::Bad { call: crate::scenario::BadCall::ForeignUnwind { .. }, .. }) => out.cov.fault("F8_foreign_call_unwinding_in_user_buffer", 1),
             (_, Op::Bad { .. }) => {
                 out.cov.fault("F3_malformed_call", 1);
                 if s.rt {
